@@ -82,20 +82,20 @@ package crypto
 //@ func (s *secureSession) Decrypt(r) (out, err)
 //@   refines "github.com/brutella/hc/crypto.Decrypter.Decrypt"
 //@   requires s != nil && r != nil
-//@   requires key: seq(s.decryptKey) == dkey()
 //@   assume nowrap
 //@   modifies s.decryptCount, stream(r)
-//@   ensures genuine: err == nil ==> out != nil && fresh(out) && typeis(out, "*bytes.Buffer") && stream(out) == pcat(old(s.decryptCount), s.decryptCount)
+//@   ensures genuine: old(seq(s.decryptKey)) == dkey() && err == nil ==> stream(out) == pcat(old(s.decryptCount), s.decryptCount)
+//@   ensures result: err == nil ==> out != nil && fresh(out) && typeis(out, "*bytes.Buffer")
 //@   ensures count: s.decryptCount >= old(s.decryptCount)
 //@   ensures nothing: err != nil ==> out == nil
-//@   ensures key: seq(s.decryptKey) == dkey()
-//   round trip (C06): if the reader holds the encoding of any payload rtP() (an arbitrary constant) under this key and
-//   counter, the whole payload comes out and the counter advances by its number of frames
-//@   ensures roundtrip: old(stream(r)) == enc_suf(dkey(), old(s.decryptCount), rtP(), 0, (len(rtP()) + 1023) / 1024) ==> err == nil && stream(out) == rtP() && s.decryptCount == old(s.decryptCount) + (len(rtP()) + 1023) / 1024
+//@   ensures key: seq(s.decryptKey) == old(seq(s.decryptKey))
+//   round trip (C06): if the reader holds the encoding of any payload rtP() (an arbitrary constant) under this key (an
+//   ordinary key, rkey()) and counter, the whole payload comes out and the counter advances by its number of frames
+//@   ensures roundtrip: old(seq(s.decryptKey)) == rkey() && old(stream(r)) == enc_suf(rkey(), old(s.decryptCount), rtP(), 0, (len(rtP()) + 1023) / 1024) ==> err == nil && stream(out) == rtP() && s.decryptCount == old(s.decryptCount) + (len(rtP()) + 1023) / 1024
 //@   loop 0
-//@     invariant rt: old(stream(r)) == enc_suf(dkey(), old(s.decryptCount), rtP(), 0, (len(rtP()) + 1023) / 1024) ==> s.decryptCount - old(s.decryptCount) <= (len(rtP()) + 1023) / 1024 && stream(r) == enc_suf(dkey(), old(s.decryptCount), rtP(), s.decryptCount - old(s.decryptCount), (len(rtP()) + 1023) / 1024) && stream(addr(buf)) == sub(rtP(), 0, ite(1024 * (s.decryptCount - old(s.decryptCount)) <= len(rtP()), 1024 * (s.decryptCount - old(s.decryptCount)), len(rtP()))) && suf_mark(dkey(), old(s.decryptCount), rtP(), s.decryptCount - old(s.decryptCount), (len(rtP()) + 1023) / 1024)
-//@     invariant key: seq(s.decryptKey) == dkey() && s.decryptCount >= old(s.decryptCount)
-//@     invariant buf: stream(addr(buf)) == pcat(old(s.decryptCount), s.decryptCount) && pmark(old(s.decryptCount), s.decryptCount)
+//@     invariant rt: old(seq(s.decryptKey)) == rkey() && old(stream(r)) == enc_suf(rkey(), old(s.decryptCount), rtP(), 0, (len(rtP()) + 1023) / 1024) ==> s.decryptCount - old(s.decryptCount) <= (len(rtP()) + 1023) / 1024 && stream(r) == enc_suf(rkey(), old(s.decryptCount), rtP(), s.decryptCount - old(s.decryptCount), (len(rtP()) + 1023) / 1024) && stream(addr(buf)) == sub(rtP(), 0, ite(1024 * (s.decryptCount - old(s.decryptCount)) <= len(rtP()), 1024 * (s.decryptCount - old(s.decryptCount)), len(rtP()))) && suf_mark(rkey(), old(s.decryptCount), rtP(), s.decryptCount - old(s.decryptCount), (len(rtP()) + 1023) / 1024)
+//@     invariant key: seq(s.decryptKey) == old(seq(s.decryptKey)) && s.decryptCount >= old(s.decryptCount)
+//@     invariant buf: old(seq(s.decryptKey)) == dkey() ==> stream(addr(buf)) == pcat(old(s.decryptCount), s.decryptCount) && pmark(old(s.decryptCount), s.decryptCount)
 
 // ---- an encrypter seen through its interface: enckey(e) / enccnt(e) abstract the key and frame counter of the session
 //@ ghost enckey(ref) seq
